@@ -27,14 +27,13 @@ THEOREMS = [
     "C15_stale_without_digest_replaced",
     "C15_mismatch_never_kept",
     "C15_partial_file_replaced",
-    "C15_undecodable_fresh_removed_partial",
-    "C15_metadata_error_leaves_no_fresh_file",
-    "C15_undecodable_other_exception_kept_refuted",
+    "C15_undecodable_fresh_removed",
+    "C15_extraction_error_leaves_no_fresh_file",
     "C15_used_file_verified_or_fresh",
-    "C15_broken_transfer_fails_run_partial",
-    "C15_transfer_refuted",
-    "C15_transfer_full_statement_refuted",
+    "C15_failed_transfer_fails_run",
+    "C15_error_status_fails_run",
     "C15_fresh_transfer_unverified_refuted",
+    "C15_fresh_transfer_verified_full_statement_refuted",
     "C15_page_retry_within_budget",
     "C15_page_retry_exhausted",
     "C15_page_error_never_parsed",
@@ -48,8 +47,7 @@ THEOREMS = [
     "C15_cli_traceback_pairs_table",
     "C15_cli_unusable_repository_is_diagnostic",
     "C15_bzl_user_dir_never_deleted",
-    "C15_bzl_tmp_removed_all_exits_partial",
-    "C15_bzl_tmp_left_behind_refuted",
+    "C15_bzl_tmp_removed_all_exits",
     "C15_scan_touches_only_candidate_files",
     "C15_honest_transfer_heals",
     "C15_user_dir_never_deleted_given",
@@ -82,15 +80,15 @@ ASSUMPTIONS = [
     "candidates with equal sort keys are tried in listing order (sorted(reverse=True) is stable); the end-to-end listings keep such ties in the order the model is given",
     "the prerelease fallback of do_get_candidate (second pass with prereleases allowed) is outside the model: generated versions are final releases",
 ]
-LEVEL_TEXT = ("33 theorems proved in Coq over Gallina models of _do_download/resolve_candidate/do_get_candidate/_scan_page_links "
+LEVEL_TEXT = ("31 theorems proved in Coq over Gallina models of _do_download/resolve_candidate/do_get_candidate/_scan_page_links "
               "(all directories, crash prefixes, fault scripts, candidate lists; sha and the metadata verdict abstract) and of the "
               "exit paths of compile_main/compile_requirements (all stage-failure scripts, over facts regenerated from the source): "
-              "reuse iff digest equal, every mismatching/partial file is replaced, MetadataError removes a fresh file, what the scan "
-              "uses is digest-verified or was transferred in this run, page 5xx retry budget; for compile_main the temporary wheel "
-              "directory is gone after EVERY exit, a user directory is never deleted, and every failure the handler table covers "
-              "(bad input, unusable repository argument, no candidate, bad metadata) is a diagnostic with exit status 1; refuted with "
-              "replayed witnesses: error page -> next version, unverified fresh transfer, non-MetadataError failures keep the file, "
-              "Bazel front end leaves its temp dir behind when build_repo fails.")
+              "reuse iff digest equal, every mismatching/partial file is replaced, a fresh file that cannot be read (any failure) is "
+              "removed, a failed transfer (connection error, broken stream, error status) fails the run and never yields another "
+              "version, what the scan uses is digest-verified or was transferred in this run with a non-error status, page 5xx retry "
+              "budget; for both front ends the temporary wheel directory is gone after EVERY exit and a user directory is never "
+              "deleted; for compile_main every failure the handler table covers is a diagnostic with exit status 1; refuted with a "
+              "replayed witness: a fresh transfer is not compared with the advertised digest.")
 LEVEL_NOTE = ("Trusted: Coq kernel, extraction, OCaml driver, T1 translator, T2 harness with fake session; sha/meta instantiations "
               "(toy hash, oracle table); kill -9 crash points are modelled as prefixes, not executed.")
 TECHNIQUE = "Rocq proof over Gallina models (finite-map lemmas, induction over candidate lists/fault scripts/statement lists) + T1 generated facts + extraction-based differential correspondence with scripted fake sessions and subprocess TMPDIR census"
@@ -985,6 +983,8 @@ fname, res, wd, blocks_before_kill, flush = sys.argv[1], sys.argv[2], sys.argv[3
 content = c15.true_content(fname, "big")
 class Resp:
     status_code = 200
+    def raise_for_status(self):
+        pass
     def iter_content(self, n):
         for i in range(0, len(content), n):
             if i // n == blocks_before_kill:
@@ -1179,14 +1179,14 @@ def oracle_history(mods, wd: Path, h: Dict[str, Any]) -> Optional[str]:
         now = o["dir"].get(fn)
         if len(o["log"]) != 1:
             return "a mismatching/partial file was not re-requested exactly once"
-        if first[0] in ("B", "K") and now != first[2]:
+        if first[0] in ("B", "K") and not (400 <= first[1] < 600) and now != first[2]:
             return "a mismatching/partial file was not replaced by the bytes the server sent"
         if first[0] == "F" and now == seed and adv is not None:
             return "a mismatching file survived a failed re-download"
     # resolve level: undecodable fresh file
     o = impl_run(None, mods, h, "R", wd)
-    if o["res"] == ("EXN", "MetadataError") and o["log"] and fn in o["dir"]:
-        return "a freshly downloaded file whose metadata failed with MetadataError was left in the wheel directory"
+    if o["res"] in (("EXN", "MetadataError"), ("EXN", "OtherError")) and o["log"] and fn in o["dir"]:
+        return "a freshly downloaded file whose metadata could not be read (" + o["res"][1] + ") was left in the wheel directory"
     # scan level: a transfer that broke with an exception must fail the run
     first = h["script"][0] if h["script"] else ("F",)
     top_requested = not (seed is not None and adv is not None and hashlib.sha256(seed).hexdigest() == adv)
@@ -1194,6 +1194,11 @@ def oracle_history(mods, wd: Path, h: Dict[str, Any]) -> Optional[str]:
     skipped = c["sdist"] and not h["allow_sdist"]
     if top_requested and not skipped and first[0] in ("F", "K") and o["res"][0] == "OK":
         return "the transfer of the best candidate broke, yet the run went on and returned " + str(o["res"][1])
+    if top_requested and not skipped and first[0] in ("B", "K") and 400 <= first[1] < 600:
+        if o["res"] != ("EXN", "HTTPError"):
+            return f"the request for the best candidate's file was answered with status {first[1]}, yet the run ended with {o['res']}"
+        if o["dir"].get(fn) == first[2] and seed != first[2]:
+            return "an error page was saved as the candidate's file"
     if o["res"][0] == "OK":
         used = o["res"][1]
         cu = [x for x in h["cands"] if x["file"] == used][0]
@@ -1204,8 +1209,8 @@ def oracle_history(mods, wd: Path, h: Dict[str, Any]) -> Optional[str]:
             return "the returned candidate's file is not in the wheel directory"
         if o["res"][2] == "1" and (au is None or hashlib.sha256(content).hexdigest() != au):
             return "the scan returned a cached file whose digest is not the advertised one"
-        if o["res"][2] == "0" and not any(r[0] == "B" and r[2] == content for r in h["script"]):
-            return "the scan returned a fresh file that is not a body served in this run"
+        if o["res"][2] == "0" and not any(r[0] == "B" and r[2] == content and not (400 <= r[1] < 600) for r in h["script"]):
+            return "the scan returned a fresh file that is not a body served with a non-error status in this run"
     return None
 
 
